@@ -72,10 +72,6 @@ enum Sel {
 }
 
 impl NArr {
-    pub fn new(shape: Vec<usize>, data: Vec<i32>) -> NArr {
-        assert_eq!(prod(&shape), data.len());
-        NArr { shape, data }
-    }
     /// distinct values base+1, base+2, ...
     pub fn iota(shape: &[usize], base: i32) -> NArr {
         let n = prod(shape);
@@ -740,13 +736,22 @@ impl St {
         }
         json!({"box": self.boxname, "start": self.start, "path": p})
     }
+    fn case_len(&self) -> usize {
+        let owned = if self.boxname == "owned" { case_len_of(&self.start) } else { 0 };
+        owned + self.path.len() + 1
+    }
     fn fail(&mut self, sig: String, last: Json, detail: String) {
+        // keep the shortest chain per signature
+        let plen = self.case_len();
         if let Some(e) = self.fails.get_mut(&sig) {
             e.2 += 1;
-            return;
+            if case_len_of(&e.0) <= plen {
+                return;
+            }
         }
+        let n = self.fails.get(&sig).map(|e| e.2).unwrap_or(1);
         let case = self.case(last);
-        self.fails.insert(sig, (case, detail, 1));
+        self.fails.insert(sig, (case, detail, n));
     }
     fn subject_error(&mut self, name: &str, msg: &str) {
         if self.subject_errors.len() < 400 {
@@ -754,6 +759,11 @@ impl St {
             *self.subject_errors.entry(format!("{name}: {m}")).or_insert(0) += 1;
         }
     }
+}
+
+/// number of actions in a case (owned history + view path)
+fn case_len_of(case: &Json) -> usize {
+    case["path"].as_array().map(|a| a.len()).unwrap_or(0) + case["view_path"].as_array().map(|a| a.len()).unwrap_or(0)
 }
 
 fn layout_class(v: &TensorView<'_, i32>) -> &'static str {
@@ -1074,6 +1084,8 @@ enum AK {
     Mid,
     /// 6 items
     Small,
+    /// 4 items: full, Index(0), 1.., reversed
+    Tiny,
 }
 
 fn item_alpha(n: usize, k: AK) -> Vec<Item> {
@@ -1110,6 +1122,7 @@ fn item_alpha(n: usize, k: AK) -> Vec<Item> {
             Item::Rng(-1, None, -2),
         ],
         AK::Small => vec![Item::full(), Item::Idx(0), Item::Idx(-1), Item::Rng(1, None, 1), Item::Rng(0, None, 2), Item::Rng(-1, None, -1)],
+        AK::Tiny => vec![Item::full(), Item::Idx(0), Item::Rng(1, None, 1), Item::Rng(-1, None, -1)],
     }
 }
 
@@ -1167,7 +1180,7 @@ fn alphabet(r: &NArr, wide: bool, ak: AK) -> Vec<Act> {
     let rank = r.shape.len();
     let mut v: Vec<Act> = vec![Act::Transposed, Act::Squeezed, Act::MergeAxes, Act::ToContiguous, Act::ToTensor, Act::Map];
     // slices
-    let ak = if rank >= 4 { AK::Small } else { ak };
+    let ak = if rank >= 4 && ak != AK::Tiny { AK::Small } else { ak };
     for len in 0..=rank + 1 {
         let profile = vec![if len > rank { AK::Small } else { ak }; len];
         let mut lists: Vec<Vec<Item>> = Vec::new();
@@ -1280,7 +1293,14 @@ fn explore(v: &TensorView<'_, i32>, r: &NArr, depth_left: usize, level: usize, c
     if depth_left == 0 {
         return;
     }
-    let ak = if level == 1 { cfg.ak_level1 } else { cfg.ak_deeper };
+    // depth-3 exploration: the last level uses the Tiny item alphabet on nodes of rank >= 3
+    let ak = if level == 1 {
+        cfg.ak_level1
+    } else if cfg.depth >= 3 && depth_left == 1 && r.shape.len() >= 3 {
+        AK::Tiny
+    } else {
+        cfg.ak_deeper
+    };
     for act in alphabet(r, level == 1, ak) {
         apply(v, r, &act, st, &mut |nv, nr, st| {
             let d = if st.last_fresh && !cfg.recurse_from_copies { 0 } else { depth_left - 1 };
@@ -1799,11 +1819,7 @@ fn owned_step(ost: &mut OSt, r: &NArr, act: &OAct, st: &mut St) -> Option<(Tenso
             let case = owned_case(ost, act);
             let sig = format!("{}: {what} ({why})", act.name());
             let detail = format!("model shape {:?}; {:?} -> shape {:?} elements {:?} {note:?}", r.shape, act, t.shape(), t.to_vec());
-            if let Some(e) = st.fails.get_mut(&sig) {
-                e.2 += 1;
-            } else {
-                st.fails.insert(sig, (case, detail, 1));
-            }
+            owned_fail(st, sig, case, detail);
             None
         }
         (Ok(note), Ok(mut exp)) => {
@@ -1839,11 +1855,7 @@ fn owned_step(ost: &mut OSt, r: &NArr, act: &OAct, st: &mut St) -> Option<(Tenso
                 let case = owned_case(ost, act);
                 let sig = format!("{}: {what}", act.name());
                 let detail = format!("input shape {:?} strides {in_strides:?}; {act:?}: {detail}", r.shape);
-                if let Some(e) = st.fails.get_mut(&sig) {
-                    e.2 += 1;
-                } else {
-                    st.fails.insert(sig, (case, detail, 1));
-                }
+                owned_fail(st, sig, case, detail);
                 return None;
             }
             ost.ocnt[id].both_ok += 1;
@@ -1851,6 +1863,18 @@ fn owned_step(ost: &mut OSt, r: &NArr, act: &OAct, st: &mut St) -> Option<(Tenso
             Some((t, exp))
         }
     }
+}
+
+fn owned_fail(st: &mut St, sig: String, case: Json, detail: String) {
+    let mut n = 1;
+    if let Some(e) = st.fails.get_mut(&sig) {
+        e.2 += 1;
+        if case_len_of(&e.0) <= case_len_of(&case) {
+            return;
+        }
+        n = e.2;
+    }
+    st.fails.insert(sig, (case, detail, n));
 }
 
 /// naive row-major contiguity (size-1 axes ignored), used only for signature classes
@@ -2345,12 +2369,18 @@ pub fn run(ctx: Ctx) -> ! {
         Job::Chains(s) | Job::Full(s, ..) | Job::Owned(s) => (if prod(&s.shape) == 0 { 500 + s.shape.len() } else { prod(&s.shape) }, s.shape.len(), i),
         Job::Big(s) => (1000 + prod(&s.shape), s.shape.len(), i),
     });
-    for &i in &order {
+    let mut cands: Vec<(usize, usize, &String, &Json, &String, u64)> = Vec::new();
+    for (rank, &i) in order.iter().enumerate() {
         for (sig, (case, detail, n)) in &outs[i].st.fails {
             *viol_instances.entry(sig.clone()).or_insert(0) += n;
-            for _ in 0..(*n).min(20) {
-                ctx.violation(sig.clone(), case.clone(), detail.clone());
-            }
+            cands.push((case_len_of(case), rank, sig, case, detail, *n));
+        }
+    }
+    // shortest chain first, then simplest start
+    cands.sort_by_key(|c| (c.0, c.1));
+    for (_, _, sig, case, detail, n) in cands {
+        for _ in 0..n.min(20) {
+            ctx.violation(sig.clone(), case.clone(), detail.clone());
         }
     }
     for (i, o) in outs.iter().enumerate() {
@@ -2458,7 +2488,7 @@ pub fn run(ctx: Ctx) -> ! {
         "box": {
             "starts": "every shape of rank<=3 over sizes {0,1,2,3} as: contiguous owned tensor; strided view (step 2, offset 1, axes reversed in memory) of a bigger buffer; owned tensor built with with_capacity+append with one spare slot on the innermost axis",
             "level1_slices": format!("try_slice (+slice when valid, +slice_copy) with every item list of length 1..=rank; per axis Full = {{Index(i): i in -n-1..=n}} + {{a..b;step: a in -n-1..=n+1, b in None|-n-1..=n+1, step in +-1..3}}; rank<=2 and lengths<=2: Full on every axis; rank 3 length 3: {} axes Full x others Mid(13 items) for every choice of axes (slice_copy on the 1-Full profiles)", p.rank3_full_axes),
-            "chain_alphabet": "try_slice/slice_copy (+slice: level 1 every valid list, all levels lists of length<=1 and the too-long list) item lists of every length 0..=rank+1 over the per-axis alphabet (level 1: Mid 13 items, deeper: Small 6 items, rank>=4: Small), slice_axis (all a<=b<=n + 2 invalid), index_axis (0..=n), split_at (every axis incl. rank, mid 0..=n+1, both halves), every permutation (+3 invalid), transposed, move_axis (0..=rank)^2, insert_axis 0..=rank+1, remove_axis 0..=rank, merge_axes, squeezed, broadcast/try_broadcast to every shape of rank<=3 (level 1: <=4) over {0,1,2,3}, reshaped/to_shape to every ordered factorisation of len with rank<=3 (level 1: <=4) + all shapes of rank<=2 over {0..3}, to_contiguous, to_tensor, map",
+            "chain_alphabet": "try_slice/slice_copy (+slice: level 1 every valid list, all levels lists of length<=1 and the too-long list) item lists of every length 0..=rank+1 over the per-axis alphabet (level 1: Mid 13 items, deeper: Small 6 items, rank>=4: Small; when the chain depth is 3 the last level uses Tiny = {full, Index(0), 1.., reversed} on nodes of rank>=3), slice_axis (all a<=b<=n + 2 invalid), index_axis (0..=n), split_at (every axis incl. rank, mid 0..=n+1, both halves), every permutation (+3 invalid), transposed, move_axis (0..=rank)^2, insert_axis 0..=rank+1, remove_axis 0..=rank, merge_axes, squeezed, broadcast/try_broadcast to every shape of rank<=3 (level 1: <=4) over {0,1,2,3}, reshaped/to_shape to every ordered factorisation of len with rank<=3 (level 1: <=4) + all shapes of rank<=2 over {0..3}, to_contiguous, to_tensor, map",
             "chain_depth": p.view_depth,
             "chain_depth_spare_variant": p.spare_depth,
             "chains_continue_from_copies": p.recurse_from_copies,
